@@ -64,6 +64,35 @@ func winboxAuth(user string, parity byte) []byte {
 	return out
 }
 
+// ppV2Grid: PROXY v2 headers for every command x family/transport combination, with the
+// address block the family calls for (and a TLV), lengths self-consistent, followed by a
+// payload; plus v1 lines for every family keyword.
+func ppV2Grid() [][]byte {
+	sig := []byte{0x0D, 0x0A, 0x0D, 0x0A, 0x00, 0x0D, 0x0A, 0x51, 0x55, 0x49, 0x54, 0x0A}
+	var out [][]byte
+	for _, vc := range []byte{0x20, 0x21, 0x22, 0x10} {
+		for _, fam := range []byte{0x00, 0x01, 0x02, 0x10, 0x11, 0x12, 0x20, 0x21, 0x22, 0x30, 0x31, 0x32, 0x40} {
+			alen := map[byte]int{1: 12, 2: 36, 3: 216}[fam>>4]
+			for _, extra := range []int{0, 7} { // 7 = one TLV (type 4 NOOP, length 4)
+				body := make([]byte, alen)
+				for i := range body {
+					body[i] = byte(i + 1)
+				}
+				if extra > 0 {
+					body = append(body, 0x04, 0x00, 0x04, 1, 2, 3, 4)
+				}
+				h := append(append([]byte(nil), sig...), vc, fam, byte(len(body)>>8), byte(len(body)))
+				h = append(h, body...)
+				out = append(out, append(h, "payload"...))
+			}
+		}
+	}
+	for _, l := range []string{"PROXY TCP4 192.0.2.1 192.0.2.2 1 2\r\n", "PROXY TCP6 2001:db8::1 2001:db8::2 65535 0\r\n", "PROXY UNKNOWN\r\n", "PROXY UNKNOWN ::1 ::2 1 2\r\n", "PROXY UDP4 1.2.3.4 5.6.7.8 1 2\r\n"} {
+		out = append(out, []byte(l+"payload"))
+	}
+	return out
+}
+
 type captureConn struct {
 	net.Conn
 	buf bytes.Buffer
@@ -116,6 +145,8 @@ func handSeeds(module string) [][]byte {
 			[]byte("GET / HTTP/1.0\n\n"),
 			[]byte("PRI * HTTP/2.0\r\n\r\nSM\r\n\r\n\x00\x00\x00\x04\x00\x00\x00\x00\x00"),
 		}
+	case "handler/proxy_protocol":
+		return append(handSeeds("proxy_protocol"), ppV2Grid()...)
 	case "proxy_protocol":
 		return [][]byte{
 			[]byte("PROXY TCP4 192.168.0.1 192.168.0.11 56324 443\r\n"),
